@@ -25,8 +25,12 @@ def run(project, rep):
     rep.run(Z.z_r4_conversion, project, rep, utc_label=True)
     rep.run(Z.z_r5_offset_sign, project, rep)
     rep.run(Z.z_r5b_sign_of_zero_hours, project, rep)
+    rep.run(Z.z_r12_zone_table_consistent, project, rep)
     rep.run(Z.z_r6_carrier_date, project, rep)
     rep.run(Z.z_r7_aware_values_kept, project, rep)
     rep.run(Z.z_r8_offset_domain, project, rep)
     rep.run(Z.z_r10_offset_of_the_given_value, project, rep)
+    from .. import rules_ofxget as G
+    rep.rule("Z-R11", "a date text typed at the command line reaches the converter as typed (J-R9)")
+    rep.run(G.j_r9_dates_given_to_the_converter_as_typed, project, rep)
     rep.run(Z.z_r9_no_value_memo, project, rep)
